@@ -41,7 +41,7 @@ class _RecCf:
 
     def send_packet(self, pk, expected_reply=(), resend=False, timeout=0.2):
         self.sent.append(pk)
-        self.snap.append((pk, pk.get_header(), bytes(pk.data)))
+        self.snap.append((pk, pk.header, bytes(pk.data)))     # the attribute, as the link drivers read it
 
 
 def _negotiate(cf, cbs, version, out):
@@ -375,7 +375,7 @@ def run_command(case):
     sent = cf.sent
     desc = '%s%r v=%d xmode=%r' % (cmd, tuple(a), version, xmode)
     for (pk_, hdr_, data_) in pre_snap:
-        if pk_.get_header() != hdr_ or bytes(pk_.data) != data_:
+        if pk_.header != hdr_ or bytes(pk_.data) != data_:
             out.fail('cmd:earlier-packet-mutated', '%s: a packet handed to the link by an earlier command (%s) changed from %s to %s' % (
                 desc, [p['cmd'] for p in case.get('pre', [])], data_.hex(), bytes(pk_.data).hex()))
             break
@@ -406,7 +406,7 @@ def run_command(case):
     data = bytes(pk.data)
     if len(data) > 30:
         out.fail('cmd:%s:too-long' % cmd, '%s: %d bytes' % (desc, len(data)))
-    hdr = pk.get_header()
+    hdr = pk.header      # not get_header(): the link drivers transmit the attribute
     if (pk.port, pk.channel) != (port, channel) or ((hdr >> 4) & 0xF, hdr & 3) != (port, channel):
         out.fail('cmd:%s:port-channel' % cmd, '%s on %r/%r (header 0x%02x), expected %d/%d' % (desc, pk.port, pk.channel, hdr, port, channel))
     fmt = '<' + ''.join('ff' if k == 'xmode' else f for f, v, k in fields)
@@ -559,7 +559,10 @@ def run_header(case):
         pk = CRTPPacket(header=(port << 4) | channel)
     elif how == 'constructor-reserved':
         pk = CRTPPacket(header=want)
+    raw = pk.header          # what the link drivers transmit
     got = pk.get_header()
+    if raw != want:
+        out.fail('header:attribute-stale', '%s(%d,%d): pk.header is 0x%02x, expected 0x%02x' % (how, port, channel, raw, want))
     if got != want or pk.header != want or pk.port != port or pk.channel != channel:
         out.fail('header:encode', '%s(%d,%d): header 0x%02x port %r channel %r, expected 0x%02x' % (how, port, channel, got, pk.port, pk.channel, want))
     back = CRTPPacket(header=got)
